@@ -4,6 +4,7 @@ and writes mutsweep/RESULTS.md (counts per verdict / file / operator, survivors 
 taken from mutsweep/triage.json)."""
 import json, sys, os, collections
 here = os.path.dirname(os.path.abspath(__file__))
+TAG = os.environ.get('SWEEP_TAG', '')  # e.g. '-argswap': separate result / triage files per mutant set
 rows = {}
 for f in sys.argv[1:]:
     for l in open(f):
@@ -14,11 +15,11 @@ for f in sys.argv[1:]:
         if 'file' in d:
             rows[d['id']] = d
 tri = {}
-tp = os.path.join(here, 'triage.json')
+tp = os.path.join(here, 'triage%s.json' % TAG)
 if os.path.exists(tp):
     tri = json.load(open(tp))
 rows = [rows[k] for k in sorted(rows)]
-with open(os.path.join(here, 'results.jsonl'), 'w') as o:
+with open(os.path.join(here, 'results%s.jsonl' % TAG), 'w') as o:
     for r in rows:
         o.write(json.dumps(r) + "\n")
 c = collections.Counter(r['verdict'] for r in rows)
@@ -41,5 +42,5 @@ out.append("\n## survivors and their triage\n\n| id | site | mutation | triage |
 for r in rows:
     if r['verdict'] == 'SURVIVOR':
         out.append("| %s | %s:%s | `%s` → `%s` | %s |\n" % (r['id'], r['file'], r['line'], r['before'].replace('|', '\\|')[:90], r['after'].replace('|', '\\|')[:90], tri.get(r['id'], 'not triaged yet')))
-open(os.path.join(here, 'RESULTS.md'), 'w').write("".join(out))
+open(os.path.join(here, 'RESULTS%s.md' % TAG), 'w').write("".join(out))
 print(c)
